@@ -122,6 +122,7 @@ type result struct {
 	Delivered    []int64
 	Excs         int
 	Inconclusive string
+	FailedWrites int
 	Notes        []string
 }
 
@@ -179,7 +180,16 @@ func run(sp spec) *result {
 			pl.FireChannelActive()
 		case "msg":
 			if sp.Write {
-				pl.FireChannelWrite([]byte("x"))
+				// some outbound writes fail below the idle handler (the transport rejects them): the message
+				// has passed the handler all the same
+				if rng.Chance(30) {
+					tr.FailWrite = tr.Writes + 1
+					r.FailedWrites++
+				}
+				func() {
+					defer func() { recover() }()
+					pl.FireChannelWrite([]byte("x"))
+				}()
 			} else {
 				pl.FireChannelRead([]byte("x"))
 			}
@@ -504,7 +514,7 @@ func main() {
 	os.Stderr = devnull
 	netty.SetVerifSched(disp)
 	rng := hx.NewRng(args.Seed)
-	meta.Rule = "real read/write idle handlers (4-10 ms idle time via the verif constructors), real timers and clock, timer callback parked at its hooks: programs of 2-5 segments (silence until the timer fires; bursts of messages; a message between firing and decision; a message shortly before expiry; inactive while the callback is at its decide / trigger / re-arm hook or between firings; panicking event handler), 16 in parallel; history replayed in the Coq model (a firing needs an expired deadline, a delivery a positive decision), clauses evaluated on raw timestamps by inequalities; non-trivial = conclusive runs with at least one firing that exercise a race segment; inconclusive runs (a delay blurred an order or a decision) are counted, not compared"
+	meta.Rule = "real read/write idle handlers (4-10 ms idle time via the verif constructors), real timers and clock, timer callback parked at its hooks: programs of 2-5 segments (silence until the timer fires; bursts of messages, some of whose outbound writes fail below the handler; a message between firing and decision; a message shortly before expiry; inactive while the callback is at its decide / trigger / re-arm hook or between firings; panicking event handler), 16 in parallel; history replayed in the Coq model (a firing needs an expired deadline, a delivery a positive decision), clauses evaluated on raw timestamps by inequalities; non-trivial = conclusive runs with at least one firing that exercise a race segment; inconclusive runs (a delay blurred an order or a decision) are counted, not compared"
 	if args.Replay != "" {
 		var rp struct {
 			Spec spec `json:"spec"`
